@@ -1,3 +1,4 @@
+#include <string>
 // differential test of the support TU against libstdc++.so: same operation sequences on std::map / std::list must agree
 #include <map>
 #include <list>
@@ -13,4 +14,5 @@ int main(int argc,char**argv){ unsigned seed = argc>1?atoi(argv[1]):1; srand(see
     }
     for(auto&p:m) h=(h^(p.first*31+p.second))*1099511628211ul; for(int x:l) h=(h^x)*1099511628211ul; for(int x:l2) h=(h^(x+7))*1099511628211ul; l.sort(); for(int x:l) h=(h^x)*1099511628211ul; }
   { std::unordered_map<int,int> m; for(int i=0;i<300;i++){ m[i*7]=i; h=h*31+m.bucket_count(); if(i%50==0) m.erase(i*7); } }
+  { std::string s; for(int i=0;i<40;i++){ s.push_back((char)(rand()%251)); h=(h^std::hash<std::string>()(s))*1099511628211ul; } }   // std::_Hash_bytes, lengths 1..40
   printf("%lu\n",h); return 0; }
